@@ -466,7 +466,9 @@ func checkC08(c *Check) {
 			v := resolveCell(stripConv(r.Results[0]))
 			fs := ff.At(r)
 			if bo, ok := v.(*ssa.BinOp); ok && bo.Op == token.EQL {
-				isEq := func(x ssa.Value) bool { return isGetterOn(x, pkgCfgV1+".Match.GetEquality", func(rv ssa.Value) bool { return rv == ssa.Value(mParam) }) }
+				isEq := func(x ssa.Value) bool {
+					return isGetterOn(x, pkgCfgV1+".Match.GetEquality", func(rv ssa.Value) bool { return rv == ssa.Value(mParam) })
+				}
 				if (bo.X == hv && isEq(bo.Y)) || (bo.Y == hv && isEq(bo.X)) {
 					// under GetEquality() != ""
 					for cond, pol := range fs {
@@ -596,7 +598,6 @@ func isServerDenyCall(P *Program, call ssa.CallInstruction) bool {
 func denyTemplateOK(P *Program) bool {
 	return len(serverDenyFns(P)) > 0
 }
-
 
 // derivesFromValue: v data-depends on target, possibly through a parameter of an own helper whose
 // argument at every call site derives from target.
